@@ -191,7 +191,7 @@ def ss_summary(ss):
     s = npz(ss)
     return dict(seq=int(s.seq), ts=float(s.ts), eps=int(s.eps), rng=s.rng.tolist(), st_h=int(s.state.h), st_cnt=int(s.state.cnt),
                 inputs={k: dict(seq=v.seq.tolist(), ts_sent=v.ts_sent.tolist(), ts_recv=v.ts_recv.tolist(), d_src=v.data.src.tolist(),
-                                d_seq=v.data.seq.tolist(), d_nonce=v.data.nonce.tolist(), d_h=v.data.h.tolist())
+                                d_seq=v.data.seq.tolist(), d_nonce=v.data.nonce.tolist(), d_h=v.data.h.tolist(), d_vec=v.data.vec.tolist())
                         for k, v in s.inputs.items()})
 
 
